@@ -7,6 +7,7 @@ CONSTANTS
   NoRoot = 0
   HasPayload = {1, 2}
   Deviation = "none"
+  UseNodes = 0
   Retention = 1
 INVARIANTS ExecHeadSound TypeOK MapSound LookupRight ErrorNotSlot
 PROPERTY CleanOnlyOld
